@@ -724,3 +724,215 @@ Proof.
     + destruct err; [discriminate|]. apply (IH _ _ Ha pre b post Hbs).
     + destruct err; apply (IH _ _ Ha pre b post Hbs).
 Qed.
+
+(* ================= sources that lose frames between blocks (no contiguity premise) ================= *)
+
+(* content-only invariant: the retained stream is a suffix of everything delivered *)
+Definition StreamC (G : list Z) (st : stream) : Prop :=
+  zlen (st_data st) <= zlen G /\ st_data st = zskipn (zlen G - zlen (st_data st)) G.
+
+Lemma emptyC : StreamC [] empty_stream.
+Proof. split; cbn; [lia|reflexivity]. Qed.
+
+Lemma appendC G st sg : StreamC G st -> StreamC (G ++ seg_data sg) (append st sg).
+Proof.
+  intros [Hl Hd]. pose proof (zlen_nonneg (st_data st)).
+  split; cbn [append st_data]; rewrite ?zlen_app; [lia|].
+  replace (zlen G + zlen (seg_data sg) - (zlen (st_data st) + zlen (seg_data sg)))
+    with (zlen G - zlen (st_data st)) by lia.
+  rewrite zskipn_app_r by lia. now rewrite <- Hd.
+Qed.
+
+Lemma trimC G st N : 0 <= N -> StreamC G st -> StreamC G (trim N st).
+Proof.
+  intros HN [Hl Hd]. unfold trim. destruct (N >=? zlen (st_data st)) eqn:E; [now split|].
+  pose proof (zlen_nonneg (st_data st)).
+  assert (HL : zlen (zskipn (zlen (st_data st) - N) (st_data st)) = N) by (rewrite zskipn_length; lia).
+  split; cbn [st_data]; rewrite ?HL; [lia|].
+  rewrite Hd at 2. rewrite zskipn_zskipn by lia. f_equal. lia.
+Qed.
+
+(* with the frame origin chosen to fit, it is the contiguous invariant: the excerpt lemma of Stream.v applies *)
+Lemma StreamC_inv G st : StreamC G st -> StreamInv G (st_first st - (zlen G - zlen (st_data st))) st.
+Proof. intros [Hl Hd]. split; [exact Hl|exact Hd|lia]. Qed.
+
+Record Inv1G (p : Z) (d : dsp) (G : list Z) : Prop := {
+  g_stream : StreamC G (d_stream d);
+  g_npre : 3 <= d_npre d;
+  g_nsamp : d_npre d + 1 <= d_nsamp d;
+  g_max : d_nsamp d <= max_nsamp;
+  g_emt : d_emt_nsamp d = d_nsamp d;
+  g_emulti : ts_emulti (d_ts d) = false;
+  g_period : st_period (d_stream d) = p \/ st_data (d_stream d) = []
+}.
+
+Lemma process_block_specG p d G sg :
+  Inv1G p d G -> seg_period sg = p ->
+  let d1 := appended d sg in
+  exists idx recs,
+    process_block d sg = Ok (after_block d1 idx, recs) /\
+    Forall2 (fun i r => trigger_at (d_stream d1) i (d_npre d) (d_nsamp d) = Ok r) idx recs /\
+    StreamC (G ++ seg_data sg) (d_stream d1) /\
+    st_time (d_stream d1) = seg_time sg - (zlen (st_data (d_stream d))) * p /\
+    Inv1G p (after_block d1 idx) (G ++ seg_data sg).
+Proof.
+  intros [Hst Hp Hs Hmax Hemt Hem Hper] Hpd d1.
+  assert (Hst1 : StreamC (G ++ seg_data sg) (d_stream d1)) by (apply appendC; assumption).
+  destruct (trigger_positions_scans d1 Hp Hs) as [E [L [A [idx [Hpos Hsc]]]]].
+  destruct (cut_spec (d_stream d1) (d_npre d) (d_nsamp d) idx ltac:(lia)) as [recs [Hcut HF]].
+  { intros i Hi. destruct (sc_range _ _ _ _ _ Hsc i Hi) as [H1 H2]. cbn in H1, H2 |- *. lia. }
+  exists idx, recs.
+  assert (Hpb : process_block d sg = Ok (after_block d1 idx, recs)).
+  { unfold process_block. fold (appended d sg). fold d1. unfold trigger_data.
+    change (ts_emulti (d_ts d1)) with (ts_emulti (d_ts d)). rewrite Hem. rewrite Hpos.
+    change (d_npre d1) with (d_npre d). change (d_nsamp d1) with (d_nsamp d). rewrite Hcut.
+    unfold after_block. rewrite ntokeep_val; [reflexivity| |]; cbn; [assumption|lia]. }
+  split; [exact Hpb|]. split; [exact HF|]. split; [exact Hst1|].
+  assert (Htime : st_time (d_stream d1) = seg_time sg - zlen (st_data (d_stream d)) * p).
+  { cbn. destruct Hper as [-> | ->]; [reflexivity|]. cbn. lia. }
+  split; [exact Htime|].
+  unfold after_block.
+  split; cbn [d_stream d_npre d_nsamp d_emt_nsamp d_ts d_last set_stream set_last appended d1]; try assumption.
+  - apply trimC; [lia|exact Hst1].
+  - left. unfold trim. destruct (_ >=? _); cbn [st_period append]; assumption.
+Qed.
+
+Lemma block_records_excerptsG p d G sg idx recs :
+  let d1 := appended d sg in
+  StreamC (G ++ seg_data sg) (d_stream d1) ->
+  st_time (d_stream d1) = seg_time sg - (zlen (st_data (d_stream d))) * p ->
+  seg_period sg = p ->
+  Forall2 (fun i r => trigger_at (d_stream d1) i (d_npre d) (d_nsamp d) = Ok r) idx recs ->
+  forall r, In r recs -> excerpt_okG (mkgi (d_npre d) (d_nsamp d) (G ++ seg_data sg) sg recs) r.
+Proof.
+  intros d1 Hst Htime Hp HF r Hr.
+  assert (Hex : exists i, trigger_at (d_stream d1) i (d_npre d) (d_nsamp d) = Ok r).
+  { clear -HF Hr. induction HF as [|i r0 idx recs H _ IH]; [destruct Hr|].
+    destruct Hr as [<-|Hr]; [eauto|auto]. }
+  destruct Hex as [i Hi].
+  destruct (trigger_at_excerpt _ _ _ _ _ _ _ (StreamC_inv _ _ Hst) Hi) as [H1 [H2 [H3 [H4 [H5 H6]]]]].
+  assert (Hlen1 : zlen (st_data (d_stream d1)) = zlen (st_data (d_stream d)) + zlen (seg_data sg)).
+  { cbn. now rewrite zlen_app. }
+  assert (Hf1 : st_first (d_stream d1) = seg_first sg - zlen (st_data (d_stream d))) by reflexivity.
+  unfold excerpt_okG. cbn [gi_npre gi_nsamp gi_G gi_seg].
+  replace (zlen (G ++ seg_data sg) - zlen (seg_data sg) + (r_frame r - seg_first sg))
+    with (r_frame r - (st_first (d_stream d1) - (zlen (G ++ seg_data sg) - zlen (st_data (d_stream d1))))) by lia.
+  repeat split; try assumption.
+  - rewrite H6, Htime. change (st_period (d_stream d1)) with (seg_period sg). rewrite Hf1, Hp. ring.
+  - unfold trigger_at in Hi. destruct (_ || _ || _); [discriminate|]. inversion Hi. reflexivity.
+Qed.
+
+Lemma fresh_inv1G p npre nsamp ts :
+  lengths_ok npre nsamp = true -> nsamp <= max_nsamp -> Inv1G p (fresh_start npre nsamp ts) [].
+Proof.
+  intros Hl Hm. apply lengths_ok_iff in Hl. split; cbn; try lia.
+  - exact emptyC.
+  - apply s32_small. unfold max_nsamp in Hm. lia.
+  - now right.
+Qed.
+
+Lemma history_G p : forall ops d G,
+  Inv1G p d G -> Forall (op_ok p) ops ->
+  exists gs, annotateG (d_npre d) (d_nsamp d) G (combine ops (run d ops)) = Some gs /\
+             (forall g r, In g gs -> In r (gi_recs g) -> excerpt_okG g r) /\
+             length (run d ops) = length ops /\ ~ In OPanic (run d ops).
+Proof.
+  induction ops as [|o ops IH]; intros d G HI HQ.
+  - exists []. cbn. repeat split; tauto.
+  - inversion HQ as [|? ? HQo HQr]; subst. destruct o as [sg|ts|nsamp npre].
+    + cbn [op_ok] in HQo.
+      destruct (process_block_specG p d G sg HI HQo) as [idx [recs [Hpb [HF [Hst [Htime HI']]]]]].
+      cbn [run step]. rewrite Hpb. cbn [combine annotateG].
+      destruct (IH _ _ HI' HQr) as [gs [Ha [Hb [Hlen Hnp]]]].
+      change (d_npre (after_block (appended d sg) idx)) with (d_npre d) in Ha.
+      change (d_nsamp (after_block (appended d sg) idx)) with (d_nsamp d) in Ha.
+      rewrite Ha. eexists. split; [reflexivity|]. split; [|split].
+      * intros g r [<-|Hg] Hr; [|now apply (Hb g r)].
+        cbn [gi_recs] in Hr. eapply block_records_excerptsG; eauto.
+      * cbn [length]. now rewrite Hlen.
+      * intros [Hx|Hx]; [discriminate|contradiction].
+    + cbn [op_ok] in HQo. cbn [run step combine annotateG].
+      assert (HI' : Inv1G p (cfg_trig d ts) G).
+      { destruct HI as [H1 H2 H3 H4 H5 H6 H7]. split; cbn; try assumption.
+        apply s32_small. unfold max_nsamp in H4. lia. }
+      destruct (IH _ _ HI' HQr) as [gs [Ha [Hb [Hlen Hnp]]]].
+      exists gs. split; [exact Ha|]. split; [exact Hb|]. split; [cbn [length]; now rewrite Hlen|].
+      intros [Hx|Hx]; [discriminate|contradiction].
+    + cbn [op_ok] in HQo. cbn [run step]. unfold cfg_len.
+      destruct (lengths_ok npre nsamp) eqn:El; cbn [combine annotateG].
+      * assert (HI' : Inv1G p (mkdsp nsamp npre (d_last d) (d_stream d) (d_ts d) (s32 nsamp) (s32 npre)) G).
+        { destruct HI as [H1 H2 H3 H4 H5 H6 H7]. apply lengths_ok_iff in El. split; cbn; try assumption; try lia.
+          apply s32_small. unfold max_nsamp in HQo. lia. }
+        destruct (IH _ _ HI' HQr) as [gs [Ha [Hb [Hlen Hnp]]]].
+        exists gs. split; [exact Ha|]. split; [exact Hb|]. split; [cbn [length]; now rewrite Hlen|].
+        intros [Hx|Hx]; [discriminate|contradiction].
+      * destruct (IH _ _ HI HQr) as [gs [Ha [Hb [Hlen Hnp]]]].
+        exists gs. split; [exact Ha|]. split; [exact Hb|]. split; [cbn [length]; now rewrite Hlen|].
+        intros [Hx|Hx]; [discriminate|contradiction].
+Qed.
+
+Lemma model_records_are_excerptsG :
+  forall npre nsamp ts period ops,
+    lengths_ok npre nsamp = true -> nsamp <= max_nsamp -> Forall (op_ok period) ops ->
+    exists gs,
+      annotateG npre nsamp [] (combine ops (run (fresh_start npre nsamp ts) ops)) = Some gs /\
+      forall g r, In g gs -> In r (gi_recs g) -> excerpt_okG g r.
+Proof.
+  intros npre nsamp ts p ops Hl Hm HQ.
+  destruct (history_G p ops (fresh_start npre nsamp ts) [] (fresh_inv1G p npre nsamp ts Hl Hm) HQ) as [gs [Ha [Hb _]]].
+  exists gs. split; [exact Ha|exact Hb].
+Qed.
+
+Lemma model_never_panicsG :
+  forall npre nsamp ts period ops,
+    lengths_ok npre nsamp = true -> nsamp <= max_nsamp -> Forall (op_ok period) ops ->
+    length (run (fresh_start npre nsamp ts) ops) = length ops /\
+    ~ In OPanic (run (fresh_start npre nsamp ts) ops).
+Proof.
+  intros npre nsamp ts p ops Hl Hm HQ.
+  destruct (history_G p ops (fresh_start npre nsamp ts) [] (fresh_inv1G p npre nsamp ts Hl Hm) HQ) as [gs [_ [_ H]]].
+  exact H.
+Qed.
+
+Lemma excerpt_okGb_iff g r : excerpt_okGb g r = true <-> excerpt_okG g r.
+Proof.
+  unfold excerpt_okGb, excerpt_okG. cbv zeta.
+  rewrite !andb_true_iff, zlist_eqb_eq, Bool.eqb_true_iff, !Z.eqb_eq, !Z.leb_le. tauto.
+Qed.
+
+Lemma C01G_check_iff npre nsamp h : C01G_check npre nsamp h = true <-> C01G_holds npre nsamp h.
+Proof.
+  unfold C01G_check, C01G_holds. destruct (annotateG npre nsamp [] h) as [gs|].
+  - rewrite forallb_forall. split.
+    + intros H. exists gs. split; [reflexivity|]. intros g r Hg Hr. apply excerpt_okGb_iff.
+      specialize (H g Hg). rewrite forallb_forall in H. auto.
+    + intros [gs' [E H]]. inversion E; subst. intros g Hg. apply forallb_forall. intros r Hr.
+      apply excerpt_okGb_iff. auto.
+  - split; [discriminate|]. intros [gs [E _]]. discriminate.
+Qed.
+
+Lemma model_C01G_check :
+  forall npre nsamp ts period ops,
+    lengths_ok npre nsamp = true -> nsamp <= max_nsamp -> Forall (op_ok period) ops ->
+    C01G_check npre nsamp (combine ops (run (fresh_start npre nsamp ts) ops)) = true.
+Proof.
+  intros. apply C01G_check_iff. unfold C01G_holds. eapply model_records_are_excerptsG; eassumption.
+Qed.
+
+Lemma C01G_checker_sound :
+  forall npre nsamp h, C01G_check npre nsamp h = true ->
+    exists gs, annotateG npre nsamp [] h = Some gs /\
+      forall g r, In g gs -> In r (gi_recs g) -> excerpt_okG g r.
+Proof. intros npre nsamp h H. apply C01G_check_iff in H. exact H. Qed.
+
+(* a history with a frame gap: 3 frames lost before the second block; the pulse delivered in that block and the
+   one pending in the tail of the first block both become records while the second block is processed *)
+Definition gap_ops : list op :=
+  [ Block {| seg_data := [10;10;10;10;10;10;10;500;500]; seg_first := 0; seg_time := 0; seg_period := 10; seg_signed := false |};
+    Block {| seg_data := [500;500;500;500;500;500;500;3000;3000;3000;3000;3000]; seg_first := 12; seg_time := 120; seg_period := 10; seg_signed := false |} ].
+
+Example gap_example :
+  Forall (op_ok 10) gap_ops /\
+  map (fun o => match o with ORecs r _ _ => map (fun x => (r_frame x, r_time x)) r | _ => [] end)
+      (run (fresh_start 3 6 example_ts) gap_ops) = [[]; [(10, 100); (19, 190)]].
+Proof. split; [repeat constructor|vm_compute; reflexivity]. Qed.
